@@ -47,6 +47,7 @@ CONSTANTS MaxMetrics, MaxLsets, MaxKeys, MaxObs,
           DEV_FamilyHelpFromSource,           \* prometheus.go Collect: HELP is "defined at <source>" of the first metric of a STORE name
           DEV_WriteNeedsEqualKeys,            \* prometheus.go Write: registers the collector's descriptors before gathering
           DEV_GraphiteHistogramFirstLabelSet, \* graphite.go metricToGraphite reads m.LabelValues[0].Value
+          EpochTs,                            \* label sets may carry the epoch itself as their timestamp (C13)
           DEV_JsonFailsOnNonFinite            \* json.go: encoding/json rejects NaN/Inf, the whole store answers 500
 
 VARIABLES store,   \* Seq of [name, prog, kind, type, keys, bounds, lsets]; lsets: Seq of [labels, val, obs, ts]
@@ -98,7 +99,7 @@ Sample(m, ls, c) ==
    val |-> Val(m, ls), dtype |-> m.type,
    buckets |-> IF m.kind = "Histogram" THEN {<<Bound(m, i), Cum(m, ls, i)>> : i \in 1..NB(m)} ELSE {},
    count |-> IF m.kind = "Histogram" THEN Len(ls.obs) ELSE 0,
-   ts |-> IF c.emitTs THEN ls.ts ELSE 0]
+   ts |-> IF c.emitTs THEN (IF ls.ts = 0 THEN -1 ELSE ls.ts) ELSE 0]       \* 0: no timestamp; -1: the timestamp 0 (epoch)
 PromIdeal(s, c) ==
   {Sample(s[i], s[i].lsets[j], c) :
      <<i, j>> \in {p \in Idx(s) \X (1..MaxLsets) :
@@ -232,9 +233,12 @@ AddLabelSet ==
   /\ \E i \in Pick({k \in Idx(store) : Len(store[k].lsets) < MaxLsets /\ FreeLabels(store[k]) # {}}) :
        LET m == store[i] IN
        /\ \E lv \in WPick(FreeLabels(m), BadLabels) :
-          \E tok \in Pick(TokensOf(m.type)), ob \in Pick(IF m.type = "Buckets" THEN ObsSeqs ELSE {<<>>}) :
+          \* ts 0 = the datum was last written at the Unix epoch itself (an instant like any other: with timestamps
+          \* enabled its sample carries the timestamp 0)
+          \E tok \in Pick(TokensOf(m.type)), ob \in Pick(IF m.type = "Buckets" THEN ObsSeqs ELSE {<<>>}),
+             t \in Pick(IF EpochTs /\ Mode = "prom" THEN {uid + 1, 0} ELSE {uid + 1}) :
             store' = [store EXCEPT ![i].lsets =
-                        Append(@, [labels |-> lv, val |-> [tok |-> tok, uid |-> uid + 1, n |-> 0], obs |-> ob, ts |-> uid + 1])]
+                        Append(@, [labels |-> lv, val |-> [tok |-> tok, uid |-> uid + 1, n |-> 0], obs |-> ob, ts |-> t])]
   /\ uid' = uid + 1
   /\ UNCHANGED cfg
 
